@@ -24,6 +24,7 @@ EXPLANATION = (
     ' (R7) the namespace id of a fence is hash_str of the whole fence name, only the fixed prefix stripped (no splitting, truncation or folding).'
     " (R8) every path from FunctionScope::enter to a return restores the caller's scope (an error inside a user function called from a named fence or an inline expression must not leave the interpreter on the function's local tables)."
     ' (R9) a comment extends exactly to the end of its line: the consumer comment() applies after the sigil stops at new_line and at nothing else.'
+    " (R10) every SectionElement variant compiled in is named by an arm of the dispatcher that does not reject it (the catch-all is an Err): a prose element without an accepting arm aborts the document."
 )
 
 EXEC = {"MechCode", "FencedMechCode", "Mika", "Float"}
@@ -123,6 +124,12 @@ def applied_ops(e, defs, body, depth=0, seen=None):
 
 
 def run(F, rep, tier):
+    _run(F, rep, tier)
+    from rules.c10_cover import run_r10
+    run_r10(F, rep)
+
+
+def _run(F, rep, tier):
     crate = "mech_interpreter.lib"
     items = F.syn(crate)
     rep.rule("C10-R1", "prose arms inert; inline carriers reach only paragraph_element; variants classified")
